@@ -48,7 +48,7 @@ CHECKS = {
    tech=TECH + " (fault enumeration over I/O call sites x error shapes with log capture)"),
  "C18": dict(cat="exploration", ref="5 C18",
    text="all 5-operation histories (thorough: 12) over {query x3 addresses, flip host, advance past either lifetime, ClearExpiredCache} for map and LRU x {both, live only, non-live only} x capacities 0..2 are enumerated and long random histories with independently generated Config fields sampled, under the simulated clock with a scripted probe; concurrent part: every schedule with <= 3 preemptions for 8 small scenarios at the package's lock operations and probes, plus random ones; oracle: measurement-history model (no stale / flipped / unmeasured cached answer), LRU recency model (evicted entries not served), capacity bound at every quiescent point, probe called once",
-   note="trusted: measurement-history and recency models; golang-lru is not instrumented (its eviction callback runs after the library releases its own lock at the pinned version - checked at start-up, with a suppress path otherwise); ages within 1 ms above a lifetime are don't-cares; cache hits are never demanded",
+   note="trusted: measurement-history and recency models; golang-lru is not instrumented (its eviction callback runs after the library releases its own lock at the pinned version - checked at start-up, with a suppress path otherwise); ages within 1 ms above a lifetime are don't-cares; cache hits are never demanded; an auxiliary free-running stress run under the race detector (capacity oracle at quiescent ends, statistical) covers switches inside critical sections, which the lock-level scheduler does not produce",
    tech=TECH + " (simulated clock, history enumeration, lock-level scheduler with bounded-preemption enumeration, reference models)"),
  "C19": dict(cat="exploration", ref="5 C19",
    text="generated TOML configurations (every optional key set / unset / zero / malformed, list entries incl. malformed CIDRs and regular expressions, the shipped app_config.toml verbatim) and subnet files through the real ParseConfig / NewRegistrationManager / liveness New; for accepted ones: three epochs of every stats module's PrintAndReset with and without traffic, a sweep, and reload sequences of length <= 4 mixing valid, malformed and unreadable files; oracles: no panic, every list entry enforced (dropped entries detected by probing the intended range), reload differential against a fresh manager (failed part unchanged, successful part replaced); single reloads and one-key alternatives on the shipped config are enumerated",
